@@ -200,8 +200,11 @@ def wiring(prog, rep, dc: FuncInfo) -> None:
     inv = env.get("self.invalid_indices")
     ok_diag = False
     if inv is not None:
-        t = U(inv)
-        ok_diag = t == f"np.where(np.logical_not(np.isclose({pe}, {pa}, atol={pt})))[0]"
+        from .common import unitem
+        t = U(unitem(inv))
+        close = f"np.isclose({pe}, {pa}, atol={pt})"
+        masks = (f"np.logical_not({close})", f"~{close}", f"np.invert({close})")
+        ok_diag = t in {f"{fn}({m_})[0]" for fn in ("np.where", "np.nonzero") for m_ in masks}
     col = env.get("self.col_index")
     if col is None and isinstance(last.stmt, ast.Assign) and any(U(t_) == "self.col_index" for t_ in last.stmt.targets):
         col = fd.resolved(last.stmt, last.stmt.value)
